@@ -74,18 +74,21 @@ Proof. reflexivity. Qed.
 Lemma code_at_eq : forall w c a, code_at (mstate_of w c) a = get_code w a.
 Proof. reflexivity. Qed.
 
-Lemma transfer_value_eq : forall w c from to v,
-  transfer_value (mstate_of w c) from to v =
-  if can_pay w from v then Some (mstate_of (xfer w from to v) c) else None.
+Lemma transfer_cond_eq : forall w c from v, transfer_cond (mstate_of w c) from v = can_pay w from v.
 Proof.
-  intros. unfold transfer_value, can_pay, xfer.
-  destruct (v =? 0) eqn:Hv; cbn [orb]; [reflexivity|].
-  rewrite balance_of_eq.
-  destruct (balance_ok (get_balance w from) v) eqn:Hb; unfold balance_ok in Hb;
-    destruct (v <=? get_balance w from) eqn:Hc; try lia; cbn [negb]; [|reflexivity].
+  intros. unfold transfer_cond, can_pay, balance_ok. rewrite balance_of_eq. lia.
+Qed.
+Lemma transfer_force_eq : forall w c from to v,
+  transfer_force (mstate_of w c) from to v = mstate_of (xfer w from to v) c.
+Proof.
+  intros. unfold transfer_force, xfer. destruct (v =? 0); [reflexivity|].
   unfold transfer_debit, transfer_credit, balance_update, balance_of, transfer, set_balance, get_balance, mstate_of.
   cbn. reflexivity.
 Qed.
+Lemma transfer_value_eq : forall w c from to v,
+  transfer_value (mstate_of w c) from to v =
+  if can_pay w from v then Some (mstate_of (xfer w from to v) c) else None.
+Proof. intros. unfold transfer_value. rewrite transfer_cond_eq, transfer_force_eq. reflexivity. Qed.
 
 Lemma ret_area_eq : forall rsz data, m_ret_area rsz data = ret_area rsz data.
 Proof.
@@ -124,6 +127,33 @@ Proof. destruct kd; reflexivity. Qed.
 Lemma insufficient_eq : forall w a v,
   negb (v =? 0) && insufficient (get_balance w a) v = negb (can_pay w a v).
 Proof. intros. unfold insufficient, can_pay. lia. Qed.
+Lemma can_pay_zero : forall w a, can_pay w a 0 = true.
+Proof. reflexivity. Qed.
+(* the static-context test of a value-bearing CALL *)
+Lemma static_check_eq : forall kd st v0,
+  call_static_value_check (op_of kd) st (call_fund (op_of kd) v0)
+  = is_kcall kd && st && negb ((if carries_value kd then v0 else 0) =? 0).
+Proof. destruct kd; intros; cbn; rewrite ?andb_false_r; reflexivity. Qed.
+(* send_callvalue: a value-carrying scheme goes ahead only if the caller can pay; CALL transfers *)
+Lemma send_cond_eq : forall kd w ctr a v0,
+  send_cond (op_of kd) (mstate_of w ctr) a (call_fund (op_of kd) v0)
+  = negb (carries_value kd && negb (can_pay w a (if carries_value kd then v0 else 0))).
+Proof.
+  intros. unfold send_cond. rewrite sends_eq.
+  destruct kd; cbn [is_kcall carries_value andb negb]; try reflexivity.
+  - change (call_fund (op_of KCall) v0) with v0. rewrite transfer_cond_eq, negb_involutive. reflexivity.
+  - change (call_fund (op_of KCallcode) v0) with v0.
+    unfold callvalue_checks_balance, callvalue_balance_ok, can_pay. rewrite balance_of_eq, negb_involutive.
+    change (Z.eqb (op_of KCallcode) OP_CALLCODE) with true. cbn [andb].
+    destruct (v0 =? 0); cbn [negb orb]; [reflexivity | lia].
+Qed.
+Lemma send_force_eq : forall kd w ctr a to v0,
+  send_force (op_of kd) (mstate_of w ctr) a to (call_fund (op_of kd) v0)
+  = mstate_of (if is_kcall kd then xfer w a to (if carries_value kd then v0 else 0) else w) ctr.
+Proof.
+  intros. unfold send_force. rewrite sends_eq. destruct kd; cbn [is_kcall carries_value]; try reflexivity.
+  change (call_fund (op_of KCall) v0) with v0. apply transfer_force_eq.
+Qed.
 Lemma depth_eq : forall d, depth_exceeded (d + 1) = (MAX_DEPTH <? d + 1).
 Proof. intros. unfold depth_exceeded, MAX_CALL_DEPTH, MAX_DEPTH. lia. Qed.
 Lemma new_address_eq : forall n, new_address n = CREATE_BASE + n.
@@ -212,6 +242,24 @@ Proof. destruct kd; reflexivity. Qed.
 Lemma no_account_no_code : forall w a, has_account w a = false -> get_code w a = [].
 Proof. intros w a. unfold has_account, get_code. destruct (alookup a (w_code w)); [discriminate | reflexivity]. Qed.
 
+(* what a frame sees of another account's code *)
+Lemma code_window_length : forall code off, length (code_window code off) = 32%nat.
+Proof. intros. unfold code_window. rewrite firstn_length, app_length, repeat_length. lia. Qed.
+Lemma ext_observation_eq : forall w ctr a off,
+  m_ext_observation (mstate_of w ctr) a off = ext_observation w a off.
+Proof.
+  intros. unfold m_ext_observation, ext_observation.
+  rewrite in_code_eq, code_at_eq.
+  unfold extcodecopy_guard, extcodecopy_use_code, extcodecopy_empty_len.
+  change (negb (32 =? 0)) with true. cbv iota.
+  destruct (has_account w (a mod 2 ^ 160)) eqn:Ha.
+  - f_equal. rewrite firstn_app, code_window_length, Nat.sub_diag, firstn_O, app_nil_r.
+    apply firstn_all2. rewrite code_window_length. lia.
+  - rewrite (no_account_no_code _ _ Ha).
+    replace (Z.to_nat (Z.max 0 (off + 32 - off))) with 32%nat by lia.
+    unfold code_window. rewrite skipn_nil. reflexivity.
+Qed.
+
 Lemma Sim_addlog_nil : forall ms s, Sim ms s -> Sim (map (addlog []) ms) s.
 Proof. intros ms [[r c] lg] H. apply (Sim_addlog [] ms r c lg H). Qed.
 
@@ -223,19 +271,22 @@ Lemma m_call_sim : forall kd to0 v0 rsz c w ctr ob l callee rest run cont,
 Proof.
   intros kd to0 v0 rsz c w ctr ob l callee rest run cont Hc Hk r ctr' lg Hs Hcl.
   cbn [sexec] in Hs.
-  unfold m_call. cbv zeta.
+  unfold m_call, send_callvalue. cbv zeta.
   change (2 ^ 160) with ADDR_MOD.
-  rewrite msg_eq, fund_eq, sends_eq, balance_of_eq, insufficient_eq, in_code_eq.
+  rewrite static_check_eq, !send_cond_eq, !send_force_eq, msg_eq, fund_eq, balance_of_eq, insufficient_eq, in_code_eq.
   set (to := to0 mod ADDR_MOD) in *.
   set (v := if carries_value kd then v0 else 0) in *.
-  rewrite !transfer_value_eq.
-  unfold call_backup_before_transfer.
+  unfold call_backup_before_transfer. cbv iota.
   destruct (is_kcall kd && c_static c && negb (v =? 0)) eqn:Hsv.
-  { inversion Hs; subst. discriminate Hcl. }
+  { (* a value-bearing CALL in a static frame halts the frame *)
+    inversion Hs; subst. apply Sim_single. cbn. auto. }
   assert (Hfail : forall l0 r0 c0 lg0, returndata l0 = [] ->
             sexec rest c w ctr (after_call ob 0 [] rsz []) [] = (r0, c0, lg0) -> clean lg0 = true ->
             Sim (cont (mstate_of w ctr) (m_after_call ob 0 l0 rsz []) l0) (r0, c0, lg0)).
   { intros l0 r0 c0 lg0 Hl Hr Hcl0. rewrite after_call_eq, Hl. apply Hk; [rewrite Hl; auto | auto]. }
+  assert (Hnc : carries_value kd = false -> can_pay w (c_this c) v = true).
+  { intros E. subst v. rewrite E. reflexivity. }
+  set (w1 := if is_kcall kd then xfer w (c_this c) to v else w) in *.
   destruct (MAX_DEPTH <? c_depth c + 1) eqn:Hd.
   { (* depth limit: the sub-frame halts at its first step, the callback restores *)
     destruct (sexec rest c w ctr (after_call ob 0 [] rsz []) []) as [[r0 c0] lg0] eqn:Hr.
@@ -243,37 +294,21 @@ Proof.
     cbn [app] in Hcl |- *.
     assert (HX : Sim (cont (mstate_of w ctr) (m_after_call ob 0 (Some (false, true, [])) rsz []) (Some (false, true, []))) (r, ctr', lg)).
     { apply Hfail; auto. }
-    assert (HY : forall w1, Sim (flat_map
-             (fun '(r0, st2, lg0) =>
-              let '(data, has_error) := output_of r0 in
-               map (addlog lg0)
-                 (cont (if call_success has_error then st2
-                        else restore_call (if true then mstate_of w ctr else mstate_of w1 ctr) st2)
-                    (m_after_call ob (if call_success has_error then 1 else 0)
-                       (Some (false, has_error, data)) rsz data)
-                    (Some (false, has_error, data))))
-             (sub_frame (sub_ctx kd c w to v) (mstate_of w1 ctr) run)) (r, ctr', lg)).
-    { intros w1. unfold sub_frame. rewrite sub_ctx_depth, depth_eq, Hd.
+    destruct (can_pay w (c_this c) v) eqn:Hcp.
+    - rewrite andb_false_r. cbn [negb app]. apply Sim_app_nil_r.
+      unfold sub_frame. rewrite sub_ctx_depth, depth_eq, Hd.
       cbn [flat_map output_of call_success negb app]. rewrite app_nil_r, restore_call_eq.
-      apply Sim_addlog_nil. exact HX. }
-    destruct (is_kcall kd); destruct (can_pay w (c_this c) v); cbn [negb app];
-      try apply HY; try (apply Sim_app; [exact HX | apply HY]); try (apply Sim_app_nil_r; exact HX). }
+      apply Sim_addlog_nil. exact HX.
+    - destruct (carries_value kd) eqn:Hcv; [| discriminate (Hnc eq_refl)].
+      cbn [andb negb app]. exact HX. }
   destruct (carries_value kd && negb (can_pay w (c_this c) v)) eqn:Hp.
-  { (* the caller cannot pay: only the insufficient-funds branch is feasible *)
-    destruct (sexec rest c w ctr (after_call ob 0 [] rsz []) []) as [[r0 c0] lg0] eqn:Hr.
-    inversion Hs; subst. clear Hs.
-    destruct kd; subst v; cbn [carries_value andb] in *; try discriminate Hp.
-    - cbn [is_kcallcode is_kcall app] in *. rewrite Hp.
-      destruct (can_pay w (c_this c) v0); [discriminate Hp|].
-      destruct (has_account w to); apply Sim_app_nil_r; apply Hfail; auto.
-    - discriminate Hcl. }
+  { (* the caller cannot pay: only the insufficient-funds branch holds *)
+    apply andb_prop in Hp as [Hcv Hcp]. apply negb_true_iff in Hcp. rewrite Hcp.
+    cbn [negb app].
+    destruct (has_account w to); cbn [app]; apply (Hfail (Some (false, true, []))); auto. }
   assert (Hcp : can_pay w (c_this c) v = true).
-  { subst v. destruct kd; cbn in Hp |- *; try reflexivity;
-      destruct (can_pay w (c_this c) v0); auto; discriminate. }
-  rewrite Hcp. cbn [negb app].
-  set (w1 := if is_kcall kd then xfer w (c_this c) to v else w) in *.
-  replace (if is_kcall kd then Some (mstate_of (xfer w (c_this c) to v) ctr) else Some (mstate_of w ctr))
-    with (Some (mstate_of w1 ctr)) by (subst w1; destruct (is_kcall kd); reflexivity).
+  { destruct (carries_value kd) eqn:Hcv; [|auto]. cbn [andb] in Hp. apply negb_false_iff in Hp. exact Hp. }
+  rewrite Hcp. cbn [negb]. rewrite app_nil_r.
   destruct (has_account w to) eqn:Ha.
   - destruct (match c_code (sub_ctx kd c w to v) with
               | [] => stop_frame (sub_ctx kd c w to v) w1 ctr
@@ -364,12 +399,12 @@ Proof.
   destruct (has_account w new) eqn:Ha.
   { rewrite !orb_true_r in Hs.
     destruct (can_pay w (c_this c) v); cbn [negb app].
-    - apply Hfail; auto.
+    - apply Sim_app_nil_r. apply Hfail; auto.
     - apply Sim_app; apply Hfail; auto. }
   rewrite orb_false_r in Hs.
   destruct (can_pay w (c_this c) v) eqn:Hcp; cbn [negb app] in *.
-  2:{ rewrite orb_true_r in Hs. apply Sim_app_nil_r. apply Hfail; auto. }
-  rewrite orb_false_r in Hs.
+  2:{ rewrite orb_true_r in Hs. apply Hfail; auto. }
+  rewrite orb_false_r in Hs. rewrite app_nil_r.
   set (w1 := xfer (new_account w new) (c_this c) new v) in *.
   set (sc := mkCtx new (c_this c) (c_origin c) v initcode false (c_depth c + 1)) in *.
   destruct (MAX_DEPTH <? c_depth c + 1) eqn:Hd.
@@ -413,16 +448,16 @@ Proof.
       change (LEvent (c_this c) :: lg0) with ([LEvent (c_this c)] ++ lg0).
       apply Sim_addlog. apply IHs; auto.
   - cbn [sexec mexec] in *. rewrite observation_eq. apply IHs; auto.
-  - cbn [sexec mexec] in *. unfold retcopy_guard, retcopy_oob.
-    destruct (size =? 0) eqn:Hz; cbn [negb].
-    + destruct (blen (returndata l) <? off + size).
-      * inversion Hs; subst. discriminate Hcl.
+  - cbn [sexec mexec] in *. unfold retcopy_guard, retcopy_copy_guard, retcopy_oob. cbn [andb].
+    destruct (off + size >? blen (returndata l)) eqn:Ho;
+      destruct (blen (returndata l) <? off + size) eqn:Hb; try lia.
+    + inversion Hs; subst. apply Sim_single. cbn. auto.
+    + destruct (size =? 0) eqn:Hz; cbn [negb].
       * apply Z.eqb_eq in Hz. subst size. cbn [Z.to_nat firstn] in Hs. rewrite app_nil_r in Hs.
         apply IHs; auto.
-    + destruct (off + size >? blen (returndata l)) eqn:Ho;
-        destruct (blen (returndata l) <? off + size) eqn:Hb; try lia.
-      * inversion Hs; subst. apply Sim_single. cbn. auto.
       * apply IHs; auto.
+  - cbn [sexec mexec] in *. destruct (cond =? 0); [apply IHs2 | apply IHs1]; auto.
+  - cbn [sexec mexec] in *. rewrite ext_observation_eq. apply IHs; auto.
   - cbn [mexec]. eapply m_call_sim; eauto.
     + intros c' w' ctr1 r1 ctr2 lg1 H1 H2. apply (IHs1 c' w' ctr1 [] None); auto.
     + intros w' ctr1 ob' l' r1 ctr2 lg1 H1 H2. apply IHs2; auto.
@@ -466,8 +501,8 @@ Lemma transfer_value_world : forall st a b v st', transfer_value st a b v = Some
   m_code st' = m_code st /\ m_storage st' = m_storage st /\ m_transient st' = m_transient st.
 Proof.
   intros st a b v st' H. unfold transfer_value in H.
-  destruct (v =? 0); [inversion H; subst; auto|].
-  destruct (negb _); [discriminate|]. inversion H; subst. cbn. auto.
+  destruct (transfer_cond st a v); [|discriminate]. inversion H; subst.
+  unfold transfer_force. destruct (v =? 0); cbn; auto.
 Qed.
 
 (* whatever the callee does (ANY function [run], any number of result paths, any states):
@@ -479,17 +514,19 @@ Theorem model_call_atomic : forall kd to v rsz c st ob run f st' lg ob',
 Proof.
   intros kd to v rsz c st ob run f st' lg ob' Hin Hf.
   unfold m_call in Hin. cbv zeta in Hin.
+  destruct (call_static_value_check _ _ _).
+  { destruct Hin as [H|[]]. inversion H; subst. discriminate. }
   apply in_app_or in Hin as [Hin|Hin].
-  - destruct (negb _ && _); [|contradiction].
-    cbn in Hin. destruct Hin as [H|[]]. inversion H; subst. reflexivity.
   - unfold call_backup_before_transfer in Hin.
     destruct (in_code st (to mod 2 ^ 160)).
-    + destruct (if sends_value (op_of kd) then _ else _) as [st1|] eqn:Hsend; [|contradiction].
+    + destruct (send_callvalue _ _ _ _ _) as [st1|] eqn:Hsend; [|contradiction].
       apply in_flat_map in Hin as ([[r st2] lg0] & _ & Hin).
       destruct r; cbn [output_of call_success negb] in Hin;
         apply in_map_addlog_probe in Hin as [-> ->]; try discriminate Hf; apply restore_call_world.
-    + destruct (if sends_value (op_of kd) then _ else _) as [st1|] eqn:Hsend; [|contradiction].
+    + destruct (send_callvalue _ _ _ _ _) as [st1|] eqn:Hsend; [|contradiction].
       apply in_map_addlog_probe in Hin as [-> ->]. discriminate Hf.
+  - destruct (negb _ && _); [|contradiction].
+    cbn in Hin. destruct Hin as [H|[]]. inversion H; subst. reflexivity.
 Qed.
 
 Theorem model_create_atomic : forall v initcode c st ob run f st' lg ob',
@@ -503,8 +540,6 @@ Proof.
   { destruct Hin as [H|[]]. inversion H; subst. discriminate. }
   unfold create_backup_before_setup in Hin.
   apply in_app_or in Hin as [Hin|Hin].
-  - destruct (negb _ && _); [|contradiction].
-    cbn in Hin. destruct Hin as [H|[]]. inversion H; subst. reflexivity.
   - destruct (in_code _ _).
     + cbn in Hin. destruct Hin as [H|[]]. inversion H; subst. reflexivity.
     + destruct (transfer_value _ _ _ _) as [st2|]; [|contradiction].
@@ -512,6 +547,8 @@ Proof.
       destruct r; cbn [output_of create_success negb] in Hin;
         apply in_map_addlog_probe in Hin as [-> ->]; try discriminate Hf;
         rewrite restore_create_world; reflexivity.
+  - destruct (negb _ && _); [|contradiction].
+    cbn in Hin. destruct Hin as [H|[]]. inversion H; subst. reflexivity.
 Qed.
 
 (* ------------------------------------------------------------------ conservation *)
@@ -600,11 +637,12 @@ Proof.
     destruct (sexec s c w ctr ob rd) as [[r0 c0] l0] eqn:E. inversion Hs; subst. eauto.
   - eauto.
   - destruct (blen rd <? off + size); [discriminate|]. eauto.
+  - destruct (cond =? 0); eauto.
+  - eauto.
   - destruct (is_kcall kd && c_static c && negb _); [discriminate|].
     destruct (MAX_DEPTH <? c_depth c + 1).
     { destruct (sexec s2 c w ctr _ _) as [[r0 c0] l0] eqn:E. inversion Hs; subst. eauto. }
-    destruct (carries_value kd && negb _).
-    { destruct (sexec s2 c w ctr _ _) as [[r0 c0] l0] eqn:E. inversion Hs; subst. eauto. }
+    destruct (carries_value kd && negb _); [eauto|].
     set (w1 := if is_kcall kd then xfer w (c_this c) (to mod ADDR_MOD) (if carries_value kd then v else 0) else w) in *.
     assert (H1 : bal_ext w w1) by (subst w1; destruct (is_kcall kd); [apply bal_ext_xfer | apply bal_ext_refl]).
     destruct (match c_code _ with [] => _ | _ => _ end) as [[r1 c1] l1] eqn:Esub.
@@ -662,12 +700,13 @@ Proof.
   - destruct e; cbn in Hs; inversion Hs; subst; reflexivity.
   - eauto.
   - destruct (blen rd <? off + size); [discriminate|]. eauto.
+  - destruct (cond =? 0); eauto.
+  - eauto.
   - rewrite andb_true_r in Hs.
     destruct (is_kcall kd && negb _) eqn:Hv; [discriminate|].
     destruct (MAX_DEPTH <? c_depth c + 1).
     { destruct (sexec s2 c w ctr _ _) as [[r0 c0] l0] eqn:E. inversion Hs; subst. eauto. }
-    destruct (carries_value kd && negb _).
-    { destruct (sexec s2 c w ctr _ _) as [[r0 c0] l0] eqn:E. inversion Hs; subst. eauto. }
+    destruct (carries_value kd && negb _); [eauto|].
     assert (Hw1 : (if is_kcall kd then xfer w (c_this c) (to mod ADDR_MOD) (if carries_value kd then v else 0) else w) = w).
     { destruct kd; cbn in *; try reflexivity. unfold xfer. destruct (v =? 0); [reflexivity | discriminate]. }
     rewrite Hw1 in Hs.
@@ -683,42 +722,60 @@ Proof.
     rewrite (H2 _ _ eq_refl) in Erest. eauto.
 Qed.
 
-(* ------------------------------------------------------------------ the known deviations *)
+(* ------------------------------------------------------------------ repaired situations; the known deviation *)
 Definition ctx0 (static : bool) (depth : Z) : fctx := mkCtx 4096 77 77 0 [0] static depth.
 Definition world0 (bal : Z) : world :=
   mkWorld [(4096, [0]); (8192, [0])] [] [] [(4096, bal)].
 
-(* F11: a value-bearing CALL inside a static frame is executed (balances move) *)
-Theorem static_value_call_refuted :
-  exists s c w ctr, supported s = true /\ c_static c = true /\ c_depth c <= MAX_DEPTH /\
-    fst (fst (sframe s c w ctr)) = SHalt /\
-    exists ret st lg, In (FOk ret, st, lg) (mframe s c (mstate_of w ctr)) /\ world_of st <> w.
+(* the three situations repaired in sevm.py (fea28af, 91e78e2, 4f2dd83), at full strength *)
+
+(* a value-bearing CALL inside a static frame halts the frame: nothing is reported but the
+   halt, nothing moves -- whatever the target, the callee and the rest of the frame *)
+Theorem static_value_call_halts : forall to v rsz callee rest c w ctr ob l,
+  c_static c = true -> v <> 0 ->
+  sexec (SCall KCall to v rsz callee rest) c w ctr ob (returndata l) = (SHalt, ctr, [LEnd FHalt]) /\
+  mexec (SCall KCall to v rsz callee rest) c (mstate_of w ctr) ob l = [(FHalt, mstate_of w ctr, [LEnd FHalt])].
 Proof.
-  exists (SCall KCall 8192 5 0 (SEnd EStop) (SEnd EStop)), (ctx0 true 1), (world0 10), 0.
-  split; [reflexivity|]. split; [reflexivity|]. split; [cbv; discriminate|]. split; [reflexivity|].
-  eexists _, _, _. split; [vm_compute; left; reflexivity|]. vm_compute. discriminate.
+  intros to v rsz callee rest c w ctr ob l Hst Hv.
+  assert (E : (v =? 0) = false) by lia.
+  split.
+  - cbn [sexec carries_value is_kcall]. rewrite Hst, E. reflexivity.
+  - cbn [mexec]. unfold m_call. cbv zeta. rewrite static_check_eq.
+    cbn [carries_value is_kcall]. rewrite Hst, E. reflexivity.
 Qed.
 
-(* CALLCODE with value > balance: besides the failing path, a succeeding path is reported *)
-Theorem callcode_funds_refuted :
-  exists s c w ctr, supported s = true /\ c_depth c <= MAX_DEPTH /\
-    ~ Forall (fun m => R m (sframe s c w ctr)) (mframe s c (mstate_of w ctr)).
+(* CALLCODE with value > balance: the callee never runs and NO succeeding path is reported;
+   the only paths are those of the rest of the frame, continued with flag 0, empty return
+   data and the untouched state *)
+Theorem callcode_insufficient_fails : forall to v rsz callee rest c st ob l,
+  0 <= balance_of st (c_this c) < v ->
+  mexec (SCall KCallcode to v rsz callee rest) c st ob l =
+  mexec rest c st (m_after_call ob 0 (Some (false, true, [])) rsz []) (Some (false, true, [])).
 Proof.
-  exists (SCall KCallcode 8192 5 0 (SEnd EStop) (SEnd (EReturn 7))), (ctx0 false 1), (world0 0), 0.
-  split; [reflexivity|]. split; [cbv; discriminate|].
-  intros H. vm_compute in H. inversion H as [|? ? _ H2]; subst. inversion H2 as [|? ? H3 _]; subst.
-  destruct H3 as (_ & _ & H3 & _). discriminate H3.
+  intros to v rsz callee rest c st ob l Hb.
+  assert (Ev : (v =? 0) = false) by lia.
+  cbn [mexec]. unfold m_call. cbv zeta. rewrite static_check_eq. cbn [is_kcall andb].
+  unfold send_callvalue, send_cond. rewrite sends_eq. cbn [is_kcall].
+  change (call_fund (op_of KCallcode) v) with v.
+  assert (E0 : callvalue_checks_balance (op_of KCallcode) v = true)
+    by (unfold callvalue_checks_balance, op_of, OP_CALLCODE; lia).
+  assert (E1 : callvalue_balance_ok (balance_of st (c_this c)) v = false) by (unfold callvalue_balance_ok; lia).
+  assert (E2 : insufficient (balance_of st (c_this c)) v = true) by (unfold insufficient; lia).
+  rewrite E0, E1, E2, Ev. cbn [andb negb]. destruct (in_code st (to mod 2 ^ 160)); reflexivity.
 Qed.
 
-(* RETURNDATACOPY with size 0 and an offset beyond the return data does not halt *)
-Theorem retcopy_zero_refuted :
-  exists s c w ctr, supported s = true /\ c_depth c <= MAX_DEPTH /\
-    ~ Forall (fun m => R m (sframe s c w ctr)) (mframe s c (mstate_of w ctr)).
+(* RETURNDATACOPY beyond the return data halts the frame, also when the size is 0 *)
+Theorem retcopy_oob_halts : forall off size rest c w ctr ob l,
+  blen (returndata l) < off + size ->
+  sexec (SRetCopy off size rest) c w ctr ob (returndata l) = (SHalt, ctr, [LEnd FHalt]) /\
+  mexec (SRetCopy off size rest) c (mstate_of w ctr) ob l = [(FHalt, mstate_of w ctr, [LEnd FHalt])].
 Proof.
-  exists (SRetCopy 1 0 (SEnd EStop)), (ctx0 false 1), (world0 0), 0.
-  split; [reflexivity|]. split; [cbv; discriminate|].
-  intros H. vm_compute in H. inversion H as [|? ? H1 _]; subst.
-  destruct H1 as (_ & _ & H1). discriminate H1.
+  intros off size rest c w ctr ob l Hb. split.
+  - cbn [sexec]. assert (E : (blen (returndata l) <? off + size) = true) by lia. rewrite E. reflexivity.
+  - cbn [mexec].
+    assert (E : retcopy_guard size && retcopy_oob off size (blen (returndata l)) = true)
+      by (unfold retcopy_guard, retcopy_oob; lia).
+    rewrite E. reflexivity.
 Qed.
 
 (* a call of an address without account at the depth limit succeeds *)
